@@ -290,7 +290,14 @@ func (c *ctx) checkNullness(info *spec.EMsg, st *GV, obj *TV, path string, fails
 		}
 		v, state := FieldOf(f, st)
 		if state != fsOK {
-			// unset oneof / inactive branch / nil embedded pointer: absence is null
+			// unset oneof / inactive branch / nil embedded pointer: absence is null -- except for a message held by
+			// value, which is never null (its attributes are those of the zero message, checked on the way back)
+			if state == fsViaNil && f.Shape == "obj" && !f.Ptr {
+				if a.Null {
+					bad("non-nullable message rendered null")
+				}
+				continue
+			}
 			if !a.Null {
 				bad("attribute of an absent field is not null")
 			}
